@@ -2,7 +2,6 @@ package html
 
 import (
 	"sort"
-	"strings"
 
 	"github.com/elliotchance/gedcom/v39"
 	"github.com/elliotchance/gedcom/v39/html/core"
@@ -214,24 +213,27 @@ func (publisher *Publisher) Places() map[string]*place {
 				prettyName = "(none)"
 			}
 
-			key := alnumOrDashRegexp.
-				ReplaceAllString(strings.ToLower(prettyName), "-")
+			key := placeKey(prettyName)
 
-			if isReservedPageName(key) {
-				key += "-"
+			country := placeTag.Country()
+			if country == "" {
+				country = "(unknown)"
 			}
 
 			if _, ok := publisher.placesMap[key]; !ok {
-				country := placeTag.Country()
-				if country == "" {
-					country = "(unknown)"
-				}
-
 				publisher.placesMap[key] = &place{
 					PrettyName: prettyName,
 					country:    country,
 					nodes:      gedcom.Nodes{},
 				}
+			}
+
+			// Several spellings can share one page. The places come out of a
+			// map, so the spelling that names the page must not depend on
+			// which one was seen first.
+			if existing := publisher.placesMap[key]; prettyName < existing.PrettyName {
+				existing.PrettyName = prettyName
+				existing.country = country
 			}
 
 			publisher.placesMap[key].nodes = append(publisher.placesMap[key].nodes, node)
